@@ -84,7 +84,7 @@ func classifyStderr(text string) (class, first, stack string) {
 // on a lock / channel / wait group, none running.
 func analyseDump(text string) (deadlock bool, summary string) {
 	blocks := strings.Split(text, "\n\n")
-	reHead := regexp.MustCompile(`^goroutine \d+ \[([^\],]+)`)
+	reHead := regexp.MustCompile(`^goroutine \d+[^\[\n]*\[([^\],]+)`)
 	inSUT, parked := 0, 0
 	states := map[string]int{}
 	for _, b := range blocks {
@@ -110,6 +110,9 @@ func runChild(spec childSpec, scratch, exe string, seed int64) *childOutcome {
 	from := spec.from
 	skip := -1
 	maxTry := 6
+	if spec.tier == "thorough" {
+		maxTry = 15
+	}
 	if spec.mode == "codec-flip" {
 		maxTry = 1
 	}
@@ -230,10 +233,13 @@ func runDispatcherChildren(r *ev.Run, scratch string) {
 		return
 	}
 	var specs []childSpec
-	nSeq := r.N(600, 12000)
+	nSeq := r.N(600, 30000)
 	seqChildren := r.N(4, 8)
 	per := (nSeq + seqChildren - 1) / seqChildren
 	tmo := time.Duration(r.N(240, 2400)) * time.Second
+	if v, err := strconv.Atoi(os.Getenv("C20_CHILD_TIMEOUT_S")); err == nil && v > 0 {
+		tmo = time.Duration(v) * time.Second // development aid (testing the watch-dog path); registered commands never set this
+	}
 	for c := 0; c < seqChildren; c++ {
 		lo, hi := c*per, (c+1)*per
 		if hi > nSeq {
@@ -241,8 +247,8 @@ func runDispatcherChildren(r *ev.Run, scratch string) {
 		}
 		specs = append(specs, childSpec{mode: "dispatch-seq", n: c, from: lo, to: hi, procs: 2, timeout: tmo, tier: r.Tier})
 	}
-	stressChildren := r.N(12, 48)
-	rounds := r.N(60, 1500)
+	stressChildren := r.N(16, 48)
+	rounds := r.N(120, 3000)
 	for c := 0; c < stressChildren; c++ {
 		procs := []int{4, 8, 2, 6}[c%4]
 		specs = append(specs, childSpec{mode: "dispatch-stress", n: c, from: 0, to: rounds, procs: procs, timeout: tmo, tier: r.Tier})
